@@ -47,6 +47,10 @@ CLAIMED = {
    text="Sequential contracts and monitor invariants of the signal machinery: client.State is a reference count (result = previous + add with machine wrap, entry deleted at 0, other keys untouched); signalHandler.addSignalUser refuses a duplicate user id before touching anything and otherwise appends exactly one entry carrying the request's ids; removeSignalUser removes one entry or changes nothing; UpdateSignal collects the entries whose signal id matches under the read lock into a private slice and sends one Event (type 5) carrying the subscriber's own message id, this object's service/object id and the signal id to each of them and to nobody else (assertion at the send); RegisterEvent answers every request exactly once; lock-state and guard obligations on every access to the subscriber table.",
    note="Not decided: interleavings of emit/unsubscribe beyond the monitor rule, queue-capacity effects, the client-side fan-out goroutine (client.Subscribe) and proxy.SubscribeID's 0<->1 logic (only client.State is under contract). Channel methods are abstract with ghost counters / last-message record; 'the freshly allocated local slice is not the shared table' is an explicit assumption (assume_after).",
    technique="contract-based deductive verification with monitor invariants and ghost message records, SMT", ref="7 C13"),
+ "C14": dict(level="proof",
+   text="Sequential contracts of the property register: objectImpl.SetProperty runs the service's validator exactly once before anything is stored (mid-body assertion at the store), stores only a value whose signature matches the declared one (assertion), emits a change event only after the store and exactly one for an accepted write carrying the property's id; a rejected write emits nothing; saveProperty stores exactly the named entry under the write lock; Property returns the stored value of the named entry under the read lock; guard and lock-state obligations on the property table; signalHandler.UpdateProperty counts the emitted event.",
+   note="Linearizable-register reading under concurrent writers is NOT decided: validate / save / notify are not one critical section. stubObject.UpdateProperty (service-side updates) and the generated onPropertyChange decoders are not under contract. The validator and Value.Signature are abstract; ghost counters are assumed untouched by uncontracted callees.",
+   technique="contract-based deductive verification with ghost validator/event counters and monitor invariant, SMT", ref="7 C14"),
 }
 
 NOT_APPLICABLE = {
